@@ -3,19 +3,25 @@
 package hls
 
 // C43 driver: request/operation histories against the real HLS server (real gin handler, real muxers fed by real
-// streams) with a stub path manager that admits readers per a permission table.
+// streams) with a stub path manager that admits readers per a permission table. Every history runs in one of several
+// network topologies (hlsTrustedProxies empty = the default, one proxy, several networks, a /16, IPv6); requests arrive
+// directly, through chains of trusted proxies and untrusted forwarders, with or without forwarding headers forged by
+// the originator (X-Forwarded-For, X-Real-Ip, CF-Connecting-IP, ...). The driver knows who really sent each request
+// (ground truth `who`); the Coq model derives the server's view (gin ClientIP) from what is on the wire.
 
 import (
 	"encoding/base64"
 	"encoding/hex"
 	"errors"
 	"fmt"
+	"math/big"
 	"net"
 	"net/http"
 	"net/http/httptest"
 	"net/url"
 	"regexp"
 	"sort"
+	"strconv"
 	"strings"
 	"sync"
 	"testing"
@@ -37,15 +43,41 @@ import (
 )
 
 var (
-	vC43IPs   = []string{"10.0.0.1", "10.0.0.2", "10.0.0.3"}
 	vC43Creds = [][2]string{{"", ""}, {"u1", "p1"}, {"u2", "p2"}}
 	vC43Names = []string{"p0", "p1", "p2"}
+	// header identities of the Coq model (Model/C43_Hls.v netreq)
+	vC43HdrNames = []string{"X-Forwarded-For", "X-Real-Ip", "Cf-Connecting-Ip", "X-Appengine-Remote-Addr",
+		"Fly-Client-Ip", "True-Client-Ip", "X-Client-Ip", "Forwarded"}
 )
 
-const (
-	vC43Proxy  = "127.0.0.1"
-	vC43NPaths = 3 // p2 never has a stream
-)
+const vC43NPaths = 3 // p2 never has a stream
+
+// a network topology: hlsTrustedProxies (as written in the configuration), three clients (never inside a trusted
+// network; some sit right next to one), hosts inside the trusted networks (proxies) and other hosts that forward
+// requests without being trusted
+type vC43Topo struct {
+	name    string
+	nets    string // value of MTX_HLSTRUSTEDPROXIES
+	nilList bool   // leave Server.TrustedProxies nil instead of an empty list
+	clients []string
+	proxies []string
+	others  []string
+}
+
+var vC43Topos = []vC43Topo{
+	{name: "no-trusted-proxies", nets: "", clients: []string{"10.0.0.1", "10.0.0.2", "10.0.0.3"},
+		others: []string{"127.0.0.1", "192.168.1.5"}},
+	{name: "no-trusted-proxies(nil)", nets: "", nilList: true, clients: []string{"10.0.0.1", "10.0.0.2", "2001:db8::3"},
+		others: []string{"127.0.0.1", "::1"}},
+	{name: "one-proxy", nets: "127.0.0.1", clients: []string{"10.0.0.1", "10.0.0.2", "127.0.0.2"},
+		proxies: []string{"127.0.0.1"}, others: []string{"127.0.0.0"}},
+	{name: "two-networks", nets: "127.0.0.1/32,192.168.1.0/24", clients: []string{"10.0.0.1", "192.168.2.0", "192.168.0.255"},
+		proxies: []string{"127.0.0.1", "192.168.1.5", "192.168.1.254"}, others: []string{"192.168.2.1"}},
+	{name: "slash16", nets: "10.9.0.0/16", clients: []string{"10.8.255.255", "10.10.0.0", "10.0.0.3"},
+		proxies: []string{"10.9.0.1", "10.9.255.254"}, others: []string{"11.9.0.1"}},
+	{name: "ipv6", nets: "::1/128,fd00::/8", clients: []string{"2001:db8::1", "10.0.0.2", "fe00::1"},
+		proxies: []string{"::1", "fd00::5"}, others: []string{"fc00::5"}},
+}
 
 type vC43Path struct{ name string }
 
@@ -67,6 +99,7 @@ func vC43Index(xs []string, s string) int {
 // stub path manager: admits (path, credentials, client IP) per the table; p2 has no stream
 type vC43PM struct {
 	perm    map[[3]int]bool
+	hosts   []string
 	streams []*stream.Stream
 }
 
@@ -81,7 +114,7 @@ func (pm *vC43PM) check(ar defs.PathAccessRequest) (int, error) {
 		cred := vC43CredOf(ar.Credentials)
 		ip := -1
 		if ar.IP != nil {
-			ip = vC43Index(vC43IPs, ar.IP.String())
+			ip = vC43Index(pm.hosts, ar.IP.String())
 		}
 		if !pm.perm[[3]int{pi, cred, ip}] {
 			return pi, &auth.Error{Wrapped: errors.New("not admitted"), AskCredentials: cred == 0}
@@ -112,7 +145,7 @@ func (pm *vC43PM) AddReader(req defs.PathAddReaderReq) (*defs.PathAddReaderRes, 
 type vC43Sess struct {
 	id     int
 	path   int
-	ip     int
+	ip     int // who really created it (host index, -1 = undetermined)
 	secret string // canonical
 	cdn    bool
 }
@@ -140,12 +173,45 @@ type vC43World struct {
 	port   int
 	nExp   int
 	bad    string
+	topo   vC43Topo
+	hosts  []string     // clients, then proxies, then others
+	nets   []*net.IPNet // the trusted networks, parsed by the standard library (ground truth)
+	ipTab  map[string]string
+	ipKeys []string
 }
 
-func vC43NewWorld(r *vRand, always bool, cdn string, perm [][3]int) (*vC43World, error) {
+func vC43NewWorld(r *vRand, always bool, cdn string, perm [][3]int, topo vC43Topo) (*vC43World, error) {
 	w := &vC43World{r: r, always: always, cdn: cdn, perm: perm, ids: map[uuid.UUID]int{},
-		plName: map[int]string{}, segNm: map[int]string{}, feats: map[string]bool{}, scen: map[string]int{}, port: 40000}
-	w.pm = &vC43PM{perm: map[[3]int]bool{}, streams: make([]*stream.Stream, vC43NPaths)}
+		plName: map[int]string{}, segNm: map[int]string{}, feats: map[string]bool{}, scen: map[string]int{}, port: 40000,
+		topo: topo, ipTab: map[string]string{}}
+	w.hosts = append(append(append([]string{}, topo.clients...), topo.proxies...), topo.others...)
+	for _, h := range w.hosts {
+		w.noteIP(h)
+	}
+	var trusted conf.IPNetworks
+	if !topo.nilList {
+		// the way the configuration loader fills the field (UnmarshalEnv -> IPNetwork.UnmarshalJSON)
+		if err := trusted.UnmarshalEnv("", topo.nets); err != nil {
+			return nil, err
+		}
+	}
+	if topo.nets != "" {
+		for _, x := range strings.Split(topo.nets, ",") {
+			if !strings.Contains(x, "/") {
+				if strings.Contains(x, ":") {
+					x += "/128"
+				} else {
+					x += "/32"
+				}
+			}
+			_, n, err := net.ParseCIDR(x)
+			if err != nil {
+				return nil, err
+			}
+			w.nets = append(w.nets, n)
+		}
+	}
+	w.pm = &vC43PM{perm: map[[3]int]bool{}, hosts: w.hosts, streams: make([]*stream.Stream, vC43NPaths)}
 	for _, t := range perm {
 		w.pm.perm[t] = true
 	}
@@ -178,7 +244,7 @@ func vC43NewWorld(r *vRand, always bool, cdn string, perm [][3]int) (*vC43World,
 		SegmentDuration: conf.Duration(1 * time.Second),
 		PartDuration:    conf.Duration(200 * time.Millisecond),
 		SegmentMaxSize:  50 * 1024 * 1024,
-		TrustedProxies:  conf.IPNetworks{conf.IPNetwork{IP: net.ParseIP(vC43Proxy).To4(), Mask: net.CIDRMask(32, 32)}},
+		TrustedProxies:  trusted,
 		CDNSecret:       cdn,
 		ReadTimeout:     conf.Duration(10 * time.Second),
 		WriteTimeout:    conf.Duration(10 * time.Second),
@@ -244,23 +310,309 @@ func (w *vC43World) getMuxer(p int) *muxer {
 	return m
 }
 
-// how the client reaches the server: directly from its IP (optionally with a forged X-Forwarded-For), or through the
-// trusted proxy which reports it in X-Forwarded-For
-type vC43Net struct {
-	ip    int
-	proxy bool
-	spoof int // -1 none
+// ---- addresses ------------------------------------------------------------------------------------------------------
+
+// vC43Addr prints a net.IP as the model's addr: (has a 4-byte form, value)
+func vC43Addr(ip net.IP) string {
+	if v4 := ip.To4(); v4 != nil {
+		return "(true, " + new(big.Int).SetBytes(v4).String() + ")"
+	}
+	return "(false, " + new(big.Int).SetBytes(ip.To16()).String() + ")"
 }
 
+// noteIP records the net.ParseIP oracle for one text
+func (w *vC43World) noteIP(t string) {
+	if _, ok := w.ipTab[t]; ok {
+		return
+	}
+	if ip := net.ParseIP(t); ip != nil {
+		w.ipTab[t] = vC43Addr(ip)
+		w.ipKeys = append(w.ipKeys, t)
+	}
+}
+
+func (w *vC43World) trustedHost(h int) bool {
+	ip := net.ParseIP(w.hosts[h])
+	for _, n := range w.nets {
+		if n.Contains(ip) {
+			return true
+		}
+	}
+	return false
+}
+
+func (w *vC43World) trustClass() string {
+	if len(w.nets) == 0 {
+		return "no-trusted-proxies"
+	}
+	return "trusted-proxies"
+}
+
+// how a request reaches the server
+type vC43Net struct {
+	ip     int         // the host that really originates the request (index into hosts)
+	chain  []int       // the hosts it is forwarded by, in order; the last one is the TCP peer of the server
+	forged [][2]string // forwarding headers the originator writes itself
+	// what TRUSTED hops do with the headers (untrusted forwarders always append to X-Forwarded-For):
+	// append ", peer" | append-nospace ",peer" | append-line (a second header line) | realip (append + X-Real-Ip) |
+	// realip-only (X-Real-Ip, X-Forwarded-For passed on untouched) | garbage+realip (X-Forwarded-For: unknown, X-Real-Ip) |
+	// strip (forwarding headers removed: the proxy hides its peer)
+	mode   string
+	nopeer bool // Request.RemoteAddr does not hold an IP
+}
+
+func vC43Direct(ip int) vC43Net { return vC43Net{ip: ip, mode: "append"} }
+
+func vC43XFFAppend(h http.Header, peer, sep string) {
+	if vs := h.Values("X-Forwarded-For"); len(vs) > 0 {
+		h.Set("X-Forwarded-For", strings.Join(vs, ", ")+sep+peer)
+	} else {
+		h.Set("X-Forwarded-For", peer)
+	}
+}
+
+// headers and TCP peer as the server receives them
+func (w *vC43World) wire(n vC43Net) (http.Header, string) {
+	h := http.Header{}
+	for _, f := range n.forged {
+		h.Add(f[0], f[1])
+	}
+	peer := n.ip
+	for _, hop := range n.chain {
+		pt := w.hosts[peer]
+		mode := n.mode
+		if !w.trustedHost(hop) {
+			mode = "append"
+		}
+		switch mode {
+		case "append":
+			vC43XFFAppend(h, pt, ", ")
+		case "append-nospace":
+			vC43XFFAppend(h, pt, ",")
+		case "append-line":
+			h.Add("X-Forwarded-For", pt)
+		case "realip":
+			vC43XFFAppend(h, pt, ", ")
+			h.Set("X-Real-Ip", pt)
+		case "realip-only":
+			h.Set("X-Real-Ip", pt)
+		case "garbage+realip":
+			h.Set("X-Forwarded-For", "unknown")
+			h.Set("X-Real-Ip", pt)
+		case "strip":
+			h.Del("X-Forwarded-For")
+			h.Del("X-Real-Ip")
+		}
+		peer = hop
+	}
+	if n.nopeer {
+		return h, "pipe"
+	}
+	w.port++
+	return h, net.JoinHostPort(w.hosts[peer], strconv.Itoa(w.port))
+}
+
+// GROUND TRUTH: the host the request is attributable to - walking back from the server through hosts that the
+// configuration declares trusted proxies, as long as they report their peer. -1 = undetermined.
+func (w *vC43World) who(n vC43Net) int {
+	if n.nopeer {
+		return -1
+	}
+	path := append([]int{n.ip}, n.chain...)
+	i := len(path) - 1
+	for i > 0 && w.trustedHost(path[i]) {
+		switch n.mode {
+		case "strip":
+			return -1
+		case "realip-only":
+			for _, f := range n.forged {
+				if f[0] == "X-Forwarded-For" {
+					return -1 // the proxy passes the originator's own X-Forwarded-For on
+				}
+			}
+			if i != 1 {
+				return -1
+			}
+		case "garbage+realip":
+			if i != 1 {
+				return -1
+			}
+		}
+		i--
+	}
+	if i == 0 && w.trustedHost(path[0]) && (len(n.forged) > 0 || len(path) > 1) {
+		return -1 // the originator is itself a host the configuration trusts
+	}
+	return path[i]
+}
+
+// forwarding headers (any of the eight names) naming `victim`, in assorted spellings
+func (w *vC43World) forge(victim int) [][2]string {
+	r := w.r
+	v := w.hosts[victim]
+	spell := func() string {
+		switch r.Intn(10) {
+		case 0:
+			return " " + v + " "
+		case 1:
+			return v + ", " + w.hosts[r.Intn(len(w.hosts))]
+		case 2:
+			return w.hosts[r.Intn(len(w.hosts))] + "," + v
+		case 3:
+			if !strings.Contains(v, ":") {
+				return "::ffff:" + v
+			}
+			return strings.ToUpper(v)
+		case 4:
+			return []string{"unknown", v + ",", v + ":1234", "1.2.3", v + ", x"}[r.Intn(5)]
+		}
+		return v
+	}
+	var out [][2]string
+	names := []int{0, 0, 0, 1, 1, 2, 3, 4, 5, 6, 7}
+	k := 1
+	if r.Chance(1, 3) {
+		k = 2 + r.Intn(2)
+	}
+	seen := map[int]bool{}
+	for len(out) < k {
+		id := names[r.Intn(len(names))]
+		if seen[id] && id != 0 {
+			continue
+		}
+		seen[id] = true
+		val := spell()
+		if id == 7 {
+			val = "for=" + v
+		}
+		out = append(out, [2]string{vC43HdrNames[id], val})
+	}
+	return out
+}
+
+func (w *vC43World) randChain(untrustedToo bool) []int {
+	r := w.r
+	nc, np, no := len(w.topo.clients), len(w.topo.proxies), len(w.topo.others)
+	var pool []int
+	for i := 0; i < np; i++ {
+		pool = append(pool, nc+i)
+	}
+	if np == 0 || untrustedToo {
+		for i := 0; i < no; i++ {
+			pool = append(pool, nc+np+i)
+		}
+	}
+	k := 1
+	if r.Chance(1, 3) {
+		k = 2 + r.Intn(2)
+	}
+	var c []int
+	for len(c) < k {
+		c = append(c, pool[r.Intn(len(pool))])
+	}
+	if np > 0 && r.Chance(4, 5) { // mostly: the hop that talks to the server is a trusted proxy
+		c[len(c)-1] = nc + r.Intn(np)
+	}
+	return c
+}
+
+// a random way for host ip to reach the server
 func (w *vC43World) randNet(ip int) vC43Net {
-	n := vC43Net{ip: ip, spoof: -1}
-	switch w.r.Intn(4) {
-	case 0:
-		n.proxy = true
-	case 1:
-		n.spoof = w.r.Intn(3)
+	r := w.r
+	n := vC43Direct(ip)
+	switch x := r.Intn(40); {
+	case x < 14:
+	case x < 20:
+		n.forged = w.forge(r.Intn(3))
+	case x < 30:
+		n.chain = w.randChain(false)
+		n.mode = []string{"append", "append", "append-nospace", "append-line", "realip"}[r.Intn(5)]
+		if r.Chance(1, 3) {
+			n.forged = w.forge(r.Intn(3))
+		}
+	case x < 35:
+		n.chain = w.randChain(true)
+		if r.Chance(1, 3) {
+			n.forged = w.forge(r.Intn(3))
+		}
+	case x < 39:
+		n.chain = w.randChain(false)[:1]
+		n.mode = []string{"realip-only", "garbage+realip", "strip"}[r.Intn(3)]
+		if r.Chance(1, 3) {
+			n.forged = w.forge(r.Intn(3))
+		}
+	default:
+		n.nopeer = true
 	}
 	return n
+}
+
+// host ip pretends to be `victim`: directly with forged headers, or with a forged X-Forwarded-For through forwarders
+func (w *vC43World) forgedNet(ip, victim int) vC43Net {
+	r := w.r
+	n := vC43Direct(ip)
+	n.forged = w.forge(victim)
+	if r.Chance(1, 3) {
+		n.chain = w.randChain(r.Chance(1, 4))
+		n.mode = []string{"append", "append-nospace", "append-line", "realip"}[r.Intn(4)]
+	}
+	return n
+}
+
+func (w *vC43World) netClass(n vC43Net) string {
+	if n.nopeer {
+		return "no-peer-ip"
+	}
+	c := "direct"
+	if len(n.chain) > 0 {
+		tr, un := 0, 0
+		for _, h := range n.chain {
+			if w.trustedHost(h) {
+				tr++
+			} else {
+				un++
+			}
+		}
+		switch {
+		case un == 0 && (n.mode == "strip" || n.mode == "realip-only" || n.mode == "garbage+realip"):
+			c = "via-trusted-odd"
+		case un == 0:
+			c = "via-trusted"
+		case tr == 0:
+			c = "via-untrusted"
+		default:
+			c = "via-mixed"
+		}
+	}
+	if len(n.forged) > 0 {
+		c += "+forged"
+	}
+	return c
+}
+
+// distribution: way of arrival x status, forged header name x status (per trust class)
+func (w *vC43World) netCount(n vC43Net, op string, status int) {
+	res := "refused"
+	switch {
+	case op == "media" && (status == 200 || status == 404):
+		res = "served"
+	case op == "multi" && status == 200:
+		res = "created"
+	}
+	w.scen[fmt.Sprintf("net/%s/%s/%s:%s", w.trustClass(), w.netClass(n), op, res)]++
+	names := map[string]bool{}
+	for _, f := range n.forged {
+		names[f[0]] = true
+	}
+	for k := range names {
+		w.scen[fmt.Sprintf("forged-header/%s/%s:%s", w.trustClass(), k, res)]++
+	}
+	for _, h := range n.chain {
+		if w.trustedHost(h) {
+			w.scen["trusted-proxy-behaviour/"+n.mode]++
+			break
+		}
+	}
 }
 
 func (w *vC43World) newReq(p int, file string, q url.Values, n vC43Net, authHdr string, cookie string) *http.Request {
@@ -273,14 +625,11 @@ func (w *vC43World) newReq(p int, file string, q url.Values, n vC43Net, authHdr 
 		panic(err)
 	}
 	req.RequestURI = u
-	w.port++
-	if n.proxy {
-		req.RemoteAddr = fmt.Sprintf("%s:%d", vC43Proxy, w.port)
-		req.Header.Set("X-Forwarded-For", vC43IPs[n.ip])
-	} else {
-		req.RemoteAddr = fmt.Sprintf("%s:%d", vC43IPs[n.ip], w.port)
-		if n.spoof >= 0 {
-			req.Header.Set("X-Forwarded-For", vC43IPs[n.spoof])
+	h, remote := w.wire(n)
+	req.RemoteAddr = remote
+	for k, vs := range h {
+		for _, v := range vs {
+			req.Header.Add(k, v)
 		}
 	}
 	if authHdr != "" {
@@ -292,14 +641,61 @@ func (w *vC43World) newReq(p int, file string, q url.Values, n vC43Net, authHdr 
 	return req
 }
 
-func vC43NetDesc(n vC43Net) string {
-	switch {
-	case n.proxy:
-		return "via-proxy"
-	case n.spoof >= 0:
-		return "direct+forged-xff:" + vC43IPs[n.spoof]
+// the model's netreq of a request: ORACLES net.SplitHostPort / net.ParseIP / IP.String on RemoteAddr, Header.Values
+// joined with "," for the eight header names; every item of these values goes through the net.ParseIP oracle table
+func (w *vC43World) netreq(req *http.Request) (string, map[string]string) {
+	peer := "None"
+	if host, _, err := net.SplitHostPort(strings.TrimSpace(req.RemoteAddr)); err == nil {
+		if ip := net.ParseIP(host); ip != nil {
+			w.noteIP(ip.String())
+			peer = cqOpt(true, cqPair(vC43Str(ip.String()), vC43Addr(ip)))
+		}
 	}
-	return "direct"
+	var hs []string
+	seen := map[string]string{}
+	for id, name := range vC43HdrNames {
+		vs := req.Header.Values(name)
+		if len(vs) == 0 {
+			continue
+		}
+		v := strings.Join(vs, ",")
+		seen[name] = v
+		hs = append(hs, cqPair(cqZ(int64(id)), vC43Str(v)))
+		for _, it := range strings.Split(v, ",") {
+			w.noteIP(strings.TrimSpace(it))
+		}
+	}
+	return cqApp("Build_netreq", peer, cqList(hs)), seen
+}
+
+func (w *vC43World) netDesc(n vC43Net, req *http.Request, seen map[string]string, d map[string]any) {
+	d["from"] = w.hosts[n.ip]
+	if len(n.chain) > 0 {
+		var c []string
+		for _, h := range n.chain {
+			t := w.hosts[h]
+			if w.trustedHost(h) {
+				t += "(trusted:" + n.mode + ")"
+			} else {
+				t += "(untrusted)"
+			}
+			c = append(c, t)
+		}
+		d["forwardedBy"] = c
+	}
+	if len(n.forged) > 0 {
+		d["forgedByOriginator"] = n.forged
+	}
+	d["remoteAddr"] = req.RemoteAddr
+	if len(seen) > 0 {
+		d["forwardingHeaders"] = seen
+	}
+	d["net"] = w.netClass(n)
+	if wh := w.who(n); wh >= 0 {
+		d["who"] = w.hosts[wh]
+	} else {
+		d["who"] = "undetermined"
+	}
 }
 
 // vC43Str prints a string as (Bs "...") when it is printable ASCII without a double quote, else as a byte list
@@ -341,13 +737,20 @@ func vC43OptUUID(s string) string {
 	return cqOpt(true, cqBytes(u[:]))
 }
 
-func vC43Ob(status int, secret *string, via int, id int, pc, pq string) string {
+func vC43Ob(status int, secret *string, via int, id int, pc, pq string, sip *string, who int) string {
 	sec := "None"
 	if secret != nil {
 		sec = cqOpt(true, vC43Str(*secret))
 	}
-	return cqApp("mkob", cqZ(int64(status)), sec, cqZ(int64(via)), cqOpt(id >= 0, cqZ(int64(id))), pc, pq)
+	sp := "None"
+	if sip != nil {
+		sp = cqOpt(true, vC43Str(*sip))
+	}
+	return cqApp("mkob", cqZ(int64(status)), sec, cqZ(int64(via)), cqOpt(id >= 0, cqZ(int64(id))), pc, pq,
+		sp, cqOpt(who >= 0, cqZ(int64(who))))
 }
+
+func vC43Ob0(status int) string { return vC43Ob(status, nil, 3, -1, "None", "None", nil, -1) }
 
 func (w *vC43World) record(op string, ob string, d map[string]any) {
 	w.steps = append(w.steps, cqPair(op, ob))
@@ -395,6 +798,9 @@ func (w *vC43World) multi(p, cred int, n vC43Net, hdrKind int, ccq, ccc bool) {
 	}
 	hdr := w.authHdr(cred, hdrKind)
 	req := w.newReq(p, "index.m3u8", q, n, hdr, cookie)
+	nrC, fwdSeen := w.netreq(req)
+	who := w.who(n)
+	var sip *string
 	// oracles: what the server's own accessors return on this request
 	hdrSeen := req.Header.Get("Authorization")
 	cred = vC43CredOf(httpp.Credentials(req))
@@ -449,6 +855,8 @@ func (w *vC43World) multi(p, cred int, n vC43Net, hdrKind int, ccq, ccc bool) {
 					if sx, ok := m.sessionsBySecret[u]; ok {
 						x := sx.uuid
 						su = &x
+						y := sx.ip
+						sip = &y
 					}
 					secBytes = cqBytes(u[:])
 				}
@@ -462,7 +870,7 @@ func (w *vC43World) multi(p, cred int, n vC43Net, hdrKind int, ccq, ccc bool) {
 					id = len(w.uuids)
 					w.ids[*su] = id
 					w.uuids = append(w.uuids, *su)
-					vs := vC43Sess{id: id, path: p, ip: n.ip, cdn: secret == nil}
+					vs := vC43Sess{id: id, path: p, ip: who, cdn: secret == nil}
 					if secret != nil {
 						vs.secret = *secret
 					}
@@ -471,14 +879,19 @@ func (w *vC43World) multi(p, cred int, n vC43Net, hdrKind int, ccq, ccc bool) {
 			}
 		}
 	}
-	op := cqApp("Multi", cqZ(int64(p)), cqZ(int64(cred)), cqZ(int64(n.ip)), vC43Str(hdrSeen), cqBool(ccqSeen), cqBool(cccSeen), secBytes)
-	d := map[string]any{"op": "multi", "path": vC43Names[p], "cred": cred, "ip": vC43IPs[n.ip], "net": vC43NetDesc(n),
+	op := cqApp("Multi", cqZ(int64(p)), cqZ(int64(cred)), nrC, vC43Str(hdrSeen), cqBool(ccqSeen), cqBool(cccSeen), secBytes)
+	d := map[string]any{"op": "multi", "path": vC43Names[p], "cred": cred,
 		"authorization": hdrSeen, "cookieCheckQuery": ccqSeen, "cookieCheckCookie": cccSeen, "status": status, "via": via, "id": id}
+	w.netDesc(n, req, fwdSeen, d)
 	if secret != nil {
 		d["secret"] = *secret
 	}
-	w.record(op, vC43Ob(status, secret, via, id, "None", "None"), d)
+	if sip != nil {
+		d["sessionIP"] = *sip
+	}
+	w.record(op, vC43Ob(status, secret, via, id, "None", "None", sip, who), d)
 	w.scen[fmt.Sprintf("multi/%d", status)]++
+	w.netCount(n, "multi", status)
 }
 
 func (w *vC43World) media(p int, n vC43Net, hdrKind int, cookieHdr string, queryVal *string, file string, scen string) {
@@ -487,6 +900,8 @@ func (w *vC43World) media(p int, n vC43Net, hdrKind int, cookieHdr string, query
 		q.Set(sessionQueryParamName, *queryVal)
 	}
 	req := w.newReq(p, file, q, n, w.authHdr(0, hdrKind), cookieHdr)
+	nrC, fwdSeen := w.netreq(req)
+	who := w.who(n)
 	hdrSeen := req.Header.Get("Authorization")
 	ckSeen, ckPresent := "", false
 	if ck, err := req.Cookie(sessionCookieName); err == nil {
@@ -510,14 +925,18 @@ func (w *vC43World) media(p int, n vC43Net, hdrKind int, cookieHdr string, query
 	if ckPresent {
 		pc = vC43OptUUID(ckSeen)
 	}
-	op := cqApp("Media", cqZ(int64(p)), cqZ(int64(n.ip)), vC43Str(hdrSeen), vC43OptBytes(ckPresent, ckSeen), vC43Str(qSeen))
-	d := map[string]any{"op": "media", "path": vC43Names[p], "file": file, "ip": vC43IPs[n.ip], "net": vC43NetDesc(n),
+	op := cqApp("Media", cqZ(int64(p)), nrC, vC43Str(hdrSeen), vC43OptBytes(ckPresent, ckSeen), vC43Str(qSeen))
+	d := map[string]any{"op": "media", "path": vC43Names[p], "file": file,
 		"authorization": hdrSeen, "cookieHeader": cookieHdr, "query": qSeen, "scenario": scen, "status": status}
+	w.netDesc(n, req, fwdSeen, d)
 	if ckPresent {
 		d["cookie"] = ckSeen
 	}
-	w.record(op, vC43Ob(status, nil, 3, -1, pc, vC43OptUUID(qSeen)), d)
+	w.record(op, vC43Ob(status, nil, 3, -1, pc, vC43OptUUID(qSeen), nil, who), d)
 	w.scen[fmt.Sprintf("media/%s/%d", scen, status)]++
+	if !strings.HasPrefix(scen, "cdn-") {
+		w.netCount(n, "media", status)
+	}
 	if status == 200 {
 		w.feats["served"] = true
 	}
@@ -533,7 +952,7 @@ func (w *vC43World) kick(id int) {
 	if err != nil {
 		st = 0
 	}
-	w.record(cqApp("Kick", cqZ(int64(id))), vC43Ob(st, nil, 3, -1, "None", "None"),
+	w.record(cqApp("Kick", cqZ(int64(id))), vC43Ob0(st),
 		map[string]any{"op": "kick", "id": id, "status": st})
 	w.scen[fmt.Sprintf("kick/%d", st)]++
 	w.feats["kick"] = true
@@ -588,7 +1007,7 @@ func (w *vC43World) expire(ids []int) {
 		}
 		time.Sleep(50 * time.Millisecond)
 	}
-	w.record(cqApp("Expire", cqListOf(ids, func(i int) string { return cqZ(int64(i)) })), vC43Ob(0, nil, 3, -1, "None", "None"),
+	w.record(cqApp("Expire", cqListOf(ids, func(i int) string { return cqZ(int64(i)) })), vC43Ob0(0),
 		map[string]any{"op": "expire", "ids": ids})
 	w.scen["expire"]++
 	w.feats["expire"] = true
@@ -613,7 +1032,7 @@ func (w *vC43World) muxClose(p int) {
 		m.Close()
 		w.waitGone(p, m)
 	}
-	w.record(cqApp("MuxClose", cqZ(int64(p))), vC43Ob(st, nil, 3, -1, "None", "None"),
+	w.record(cqApp("MuxClose", cqZ(int64(p))), vC43Ob0(st),
 		map[string]any{"op": "muxer-close", "path": vC43Names[p], "status": st})
 	w.scen[fmt.Sprintf("muxclose/%d", st)]++
 	w.feats["muxclose"] = true
@@ -640,7 +1059,7 @@ func (w *vC43World) pathReady(p int) {
 			time.Sleep(2 * time.Millisecond)
 		}
 	}
-	w.record(cqApp("PathReady", cqZ(int64(p))), vC43Ob(0, nil, 3, -1, "None", "None"),
+	w.record(cqApp("PathReady", cqZ(int64(p))), vC43Ob0(0),
 		map[string]any{"op": "path-ready", "path": vC43Names[p]})
 	w.scen["pathready"]++
 }
@@ -653,7 +1072,7 @@ func (w *vC43World) pathNotReady(p int) {
 	if before != nil && after != before {
 		st = 1
 	}
-	w.record(cqApp("PathNotReady", cqZ(int64(p))), vC43Ob(st, nil, 3, -1, "None", "None"),
+	w.record(cqApp("PathNotReady", cqZ(int64(p))), vC43Ob0(st),
 		map[string]any{"op": "path-not-ready", "path": vC43Names[p], "status": st})
 	w.scen[fmt.Sprintf("pathnotready/%d", st)]++
 }
@@ -686,7 +1105,7 @@ func (w *vC43World) instCrash(p int) {
 			}
 		}
 	}
-	w.record(cqApp("InstCrash", cqZ(int64(p))), vC43Ob(0, nil, 3, -1, "None", "None"),
+	w.record(cqApp("InstCrash", cqZ(int64(p))), vC43Ob0(0),
 		map[string]any{"op": "instance-crash", "path": vC43Names[p]})
 	w.scen["instcrash"]++
 	w.feats["instcrash"] = true
@@ -709,7 +1128,7 @@ func (w *vC43World) instRecreate(p int) {
 			time.Sleep(20 * time.Millisecond)
 		}
 	}
-	w.record(cqApp("InstRecreate", cqZ(int64(p))), vC43Ob(0, nil, 3, -1, "None", "None"),
+	w.record(cqApp("InstRecreate", cqZ(int64(p))), vC43Ob0(0),
 		map[string]any{"op": "instance-recreate", "path": vC43Names[p]})
 	w.scen["instrecreate"]++
 }
@@ -822,12 +1241,15 @@ func (w *vC43World) randMedia() {
 		s = regular[len(regular)-1-r.Intn(min(3, len(regular)))]
 	}
 	p, ip := s.path, s.ip
+	if ip < 0 || ip >= 3 { // created through a proxy that hid its peer / by a forwarder: any client may try
+		ip = r.Intn(3)
+	}
 	scen := "right"
 	switch r.Intn(10) {
-	case 0, 1:
+	case 0, 1, 2:
 		ip = (ip + 1 + r.Intn(2)) % 3
 		scen = "other-ip"
-	case 2, 3:
+	case 3, 4:
 		p = (p + 1 + r.Intn(2)) % vC43NPaths
 		scen = "other-path"
 	}
@@ -841,10 +1263,20 @@ func (w *vC43World) randMedia() {
 		wrong = regular[r.Intn(len(regular))].secret // possibly another session's (other path / other ip) secret
 	}
 	n := w.randNet(ip)
-	// a forged X-Forwarded-For naming the session's IP, sent directly from another IP
-	if scen == "other-ip" && r.Bool() {
-		n = vC43Net{ip: ip, spoof: s.ip}
-		scen = "other-ip-forged-xff"
+	// forwarding headers naming the session's IP, sent by another client (directly or through forwarders)
+	if scen == "other-ip" && s.ip >= 0 && r.Chance(2, 3) {
+		n = w.forgedNet(ip, s.ip)
+		scen = "other-ip-forged-hdr"
+	}
+	if scen == "right" && s.ip >= 0 && r.Chance(3, 5) {
+		// the owner itself: mostly the way the session was created is the way it is used
+		n = vC43Direct(s.ip)
+		if r.Chance(1, 3) {
+			n.forged = w.forge(r.Intn(3)) // the owner's own (ignored) headers must not lock it out
+		}
+	}
+	if scen == "right" && w.who(n) != s.ip {
+		scen = "right-secret-not-attributable-to-owner" // e.g. through a forwarder that is not trusted
 	}
 	scen += "/" + nm
 	f := w.file(p)
@@ -881,9 +1313,18 @@ func (w *vC43World) randMulti() {
 		if r.Chance(3, 4) {
 			p = t[0]
 		}
-		cred, ip = t[1], t[2]
+		cred = t[1]
+		if t[2] < 3 || r.Chance(1, 4) { // mostly clients originate requests
+			ip = t[2]
+		}
 	}
 	n := w.randNet(ip)
+	if r.Chance(1, 6) && len(w.perm) > 0 { // a client names an admitted host (mostly it is not admitted itself)
+		t := w.perm[r.Intn(len(w.perm))]
+		p, cred = t[0], t[1]
+		ip = (t[2] + 1 + r.Intn(2)) % 3
+		n = w.forgedNet(ip, t[2])
+	}
 	kind := 0
 	if r.Chance(1, 6) || (w.cdn != "" && r.Chance(1, 4)) {
 		kind = []int{1, 1, 1, 2, 3, 4}[r.Intn(6)]
@@ -963,11 +1404,18 @@ func vC43RunHistory(idx int, seed uint64) (res vC43Result) {
 	case 2:
 		script, always, cdn = "empty-cdn-secret", false, ""
 	}
+	topo := vC43Topos[[]int{0, 0, 0, 1, 1, 2, 2, 3, 3, 4, 4, 5}[r.Intn(12)]]
+	if idx >= 3 && idx < 3+len(vC43Topos) {
+		topo = vC43Topos[idx-3] // every topology occurs in every run
+	}
+	// the permission table ranges over ALL hosts: a proxy or forwarder address may be admitted too (no IP restriction
+	// for those credentials), so that attributing a request to the wrong host shows up as an admission
+	nHosts := len(topo.clients) + len(topo.proxies) + len(topo.others)
 	var perm [][3]int
 	for p := 0; p < vC43NPaths; p++ {
 		for c := 0; c < 3; c++ {
-			for i := 0; i < 3; i++ {
-				if r.Chance(2, 5) {
+			for i := 0; i < nHosts; i++ {
+				if (i < 3 && r.Chance(2, 5)) || (i >= 3 && r.Chance(1, 3)) {
 					perm = append(perm, [3]int{p, c, i})
 				}
 			}
@@ -984,14 +1432,14 @@ func vC43RunHistory(idx int, seed uint64) (res vC43Result) {
 		}
 		return false
 	})
-	w, err := vC43NewWorld(r, always, cdn, perm)
+	w, err := vC43NewWorld(r, always, cdn, perm, topo)
 	if err != nil {
 		res.bad = "setup: " + err.Error()
 		return res
 	}
 	defer w.close()
 
-	direct := func(ip int) vC43Net { return vC43Net{ip: ip, spoof: -1} }
+	direct := vC43Direct
 	last := func() vC43Sess { return w.sess[len(w.sess)-1] }
 	right := func(s vC43Sess, scen string) {
 		v := s.secret
@@ -1073,8 +1521,22 @@ func vC43RunHistory(idx int, seed uint64) (res vC43Result) {
 	permC := cqListOf(perm, func(t [3]int) string {
 		return "(" + cqZ(int64(t[0])) + ", " + cqZ(int64(t[1])) + ", " + cqZ(int64(t[2])) + ")"
 	})
-	res.coq = cqApp("Hist", cqBool(always), vC43Str(cdn), permC, "[2]", cqList(w.steps))
-	res.desc = map[string]any{"alwaysRemux": always, "cdnSecret": cdn, "admitted(path,cred,ip)": fmt.Sprint(perm), "steps": w.descs}
+	var tpC []string
+	for _, n := range w.nets {
+		ones, _ := n.Mask.Size()
+		v4 := n.IP.To4() != nil
+		base := new(big.Int).SetBytes(n.IP.To16())
+		if v4 {
+			base = new(big.Int).SetBytes(n.IP.To4())
+		}
+		tpC = append(tpC, cqApp("Build_cidr", cqBool(v4), base.String(), cqZ(int64(ones))))
+	}
+	hostsC := cqListOf(w.hosts, func(h string) string { return vC43Addr(net.ParseIP(h)) })
+	ipsC := cqListOf(w.ipKeys, func(k string) string { return cqPair(vC43Str(k), w.ipTab[k]) })
+	res.coq = cqApp("Hist", cqBool(always), vC43Str(cdn), permC, "[2]", cqList(tpC), hostsC, ipsC, cqList(w.steps))
+	res.desc = map[string]any{"alwaysRemux": always, "cdnSecret": cdn, "admitted(path,cred,client)": fmt.Sprint(perm),
+		"topology": topo.name, "hlsTrustedProxies": topo.nets, "clients": topo.clients, "proxies": topo.proxies,
+		"otherHosts": topo.others, "steps": w.descs}
 	if script != "" {
 		res.desc["script"] = script
 	}
@@ -1088,6 +1550,8 @@ func vC43RunHistory(idx int, seed uint64) (res vC43Result) {
 	if script != "" {
 		res.class += "+script:" + script
 	}
+	res.class += "/" + topo.name
+	w.scen["topology/"+topo.name]++
 	for _, f := range []string{"expire", "instcrash", "muxclose", "kick", "served"} {
 		if w.feats[f] {
 			w.scen["histories-with/"+f]++
@@ -1157,5 +1621,14 @@ func TestVerifC43(t *testing.T) {
 	out.extra["right_secret_location_x_status"] = loc
 	out.extra["steps"] = steps
 	out.extra["scenario_x_status"] = fam
+	netd := map[string]int{}
+	for k, v := range fam {
+		if strings.HasPrefix(k, "net/") || strings.HasPrefix(k, "forged-header/") || strings.HasPrefix(k, "topology/") ||
+			strings.HasPrefix(k, "trusted-proxy-behaviour/") {
+			netd[k] = v
+			delete(fam, k)
+		}
+	}
+	out.extra["arrival_x_status"] = netd
 	_ = hex.EncodeToString
 }
